@@ -425,7 +425,7 @@ theorem aonly_empty (conf : Conf) {c : Chan} (h : InvA conf c) : AOnly conf (ste
   have h0 := h.clA cl0 hcl0
   have := heldBy_nonneg c.msgs cl0.conn
   simp only [ClOkA, nFinBy, heldBy, List.countP_nil] at h0 ⊢
-  refine ⟨by simp, h0.2.1, h0.2.2.1, by simp only [heldBy] at this; omega, h0.2.2.2.2⟩
+  refine ⟨by have := h0.1; omega, h0.2.1, h0.2.2.1, by simp only [heldBy] at this; omega, h0.2.2.2.2⟩
 
 /-- **one-step preservation of the atomic invariant** -/
 theorem step_invA (conf : Conf) (hconf : 0 ≤ conf.maxRdy) {c : Chan} (h : InvA conf c) (op : Op)
